@@ -65,6 +65,7 @@ class Ctl:
     def new_solver(self):
         self.solver = z3.Solver()
         self.solver.set("timeout", QUERY_TIMEOUT_MS)
+        self.model = None   # a model of the current assertions, when one is known (saves one query per new decision)
 
     def reset_run(self):
         self.pos = 0
@@ -74,6 +75,17 @@ class Ctl:
     def assume(self, *conds):
         for c in conds:
             self.solver.add(c)
+        self.model = None
+
+    def current_model(self):
+        if self.model is None:
+            r = self.check()
+            if r == z3.unsat:
+                raise Unsupported("infeasible path condition")
+            if r != z3.sat:
+                raise SolverUnknown("solver unknown: " + self.solver.reason_unknown())
+            self.model = self.solver.model()
+        return self.model
 
     def check(self, *extra):
         if self.deadline is not None and time.time() > self.deadline:
@@ -101,8 +113,23 @@ class Ctl:
             if choice == "conc":
                 raise Unsupported("non-deterministic re-execution (choice point mismatch)")
         else:
-            can_t = self._sat(cond)
-            can_f = self._sat(z3.Not(cond))
+            m = self.current_model()
+            v = m.eval(cond, model_completion=True)
+            side = True if z3.is_true(v) else False if z3.is_false(v) else None
+            if side is None:
+                can_t = self._sat(cond)
+                can_f = self._sat(z3.Not(cond))
+                m_t = m_f = None
+            else:
+                # the cached model witnesses one side; one query decides the other
+                r = self.check(z3.Not(cond) if side else cond)
+                if r == z3.unknown:
+                    raise SolverUnknown("solver unknown on branch: " + self.solver.reason_unknown())
+                other_model = self.solver.model() if r == z3.sat else None
+                can_t = side or r == z3.sat
+                can_f = (not side) or r == z3.sat
+                m_t = m if side else other_model
+                m_f = other_model if side else m
             if can_t and can_f:
                 self.trail.append([True, True])
                 choice = True
@@ -115,8 +142,13 @@ class Ctl:
             else:
                 raise Unsupported("infeasible path condition")
             self.branches += 1
+            self.pos += 1
+            self.solver.add(cond if choice else z3.Not(cond))
+            self.model = m_t if choice else m_f
+            return choice
         self.pos += 1
         self.solver.add(cond if choice else z3.Not(cond))
+        self.model = None
         return choice
 
     def choose_value(self, t):
@@ -129,6 +161,7 @@ class Ctl:
             if e[2] is None:
                 for v in e[1]:
                     self.solver.add(t != v)
+                self.model = None
                 r = self.check()
                 if r == z3.unsat:
                     raise Exhausted()
@@ -139,14 +172,15 @@ class Ctl:
                 e[2] = v
             v = e[2]
         else:
-            r = self.check()
-            if r != z3.sat:
-                raise Unsupported("infeasible/unknown while concretizing")
-            v = self.solver.model().eval(t, model_completion=True).as_long()
+            v = self.current_model().eval(t, model_completion=True).as_long()
             self.trail.append(["conc", [v], v])
             self.branches += 1
+            self.pos += 1
+            self.solver.add(t == v)   # the cached model satisfies t == v: it stays valid
+            return v
         self.pos += 1
         self.solver.add(t == v)
+        self.model = None
         return v
 
     def backtrack(self):
@@ -341,7 +375,7 @@ def floor_term(t):
             return ti
         CTL.aux += 1
         f = z3.Int("fl!%d" % CTL.aux)
-        CTL.solver.add(z3.ToReal(f) <= t, t < z3.ToReal(f) + 1)
+        CTL.assume(z3.ToReal(f) <= t, t < z3.ToReal(f) + 1)
         return f
     return _math.floor(t)
 
